@@ -272,11 +272,11 @@ def superWalk (c : Core) (item : Nat) : Nat → Option Nat → Walk
 /-! ## operations, hooks, tasks -/
 
 inductive Hook where
-  | create | init | mod | act
+  | create | init | mod | act | id
   deriving DecidableEq, Repr
 
 def Hook.str : Hook → String
-  | .create => "create" | .init => "init" | .mod => "mod" | .act => "act"
+  | .create => "create" | .init => "init" | .mod => "mod" | .act => "act" | .id => "id"
 
 /-- what a scripted LPC object can do (harness/mudlib/c08/obj.c: do_op) -/
 inductive Op where
@@ -284,6 +284,7 @@ inductive Op where
   | cl (b : Base)            -- clone_object("/c08/..")
   | mv (a d : Nat)           -- a->x_mv(d): move_object(d) executed by a
   | mvs (a : Nat) (b : Base) -- a->x_mvs("/c08/.."): move_object(string) executed by a (the destination is loaded on demand)
+  | pr (e t : Nat)           -- present("o<t>", e): e's inventory is searched by calling id("o<t>") in every member
   | fis (b : Base)           -- first_inventory("/c08/..") (the object is loaded on demand)
   | de (a : Nat)             -- destruct(a)
   | ec (a : Nat)             -- a: enable_commands()
@@ -362,6 +363,7 @@ inductive Task where
   | move (item dest : Nat)                                 -- f_move_object (object argument) + move_object
   | moveStr (item : Nat) (b : Base)                        -- f_move_object with a string argument
   | fan (item dest : Nat) (cur : Option Nat) (save : Option Nat)  -- the `for (ob = dest->contains; ob; ob = next_ob)` loop; save_cmd
+  | present (env tgt : Nat) (cur : Option Nat)             -- object_present2: the `for (; ob; ob = ob->next_inv)` loop
   | command (a : Nat) (verb : String)                      -- process_command(verb, a) + user_parser
   | destruct (ob : Nat)                                    -- destruct_object
   | dloop (ob : Nat) (sup0 : Option Nat) (saveR : Option Nat)  -- its `while (ob->contains)` loop
@@ -414,6 +416,13 @@ def exec (sc : Scripts) : Nat → Task → World → R
               -- x_mvs returns environment() after the move
               { w := emit w s!"r mvs {oid a} {b.str} ok {roid w.c self ((w.c.objs a).super.bind (readRef w.c))}" }
           | none => { w := emit w s!"r mvs {oid a} {b.str} !gone" }
+        | .pr e t =>
+          -- f_present(string, object): a destructed environment gives 0
+          match readRef w.c e with
+          | none => { w := emit w s!"r pr {oid e} {oid t} !gone" }
+          | some e =>
+            (exec sc f (.present e t (w.c.objs e).contains.head?) w).andThen fun w v =>
+              { w := emit w s!"r pr {oid e} {oid t} {roid w.c self (v.bind (readRef w.c))}" }
         | .fis b =>
           (exec sc f (.load b) w).andThen fun w v =>
             match v with
@@ -605,6 +614,18 @@ def exec (sc : Scripts) : Nat → Task → World → R
                 r2.andThen fun w2 _ =>
                   if (w1.c.objs item).ec ∧ (w2.c.objs item).super ≠ some dest then { w := { w2 with cg := saveCg } }
                   else exec sc f (.fan item dest next saveCg) w2
+    | .present env tgt cur =>
+      match cur with
+      | none => { w := w, val := none }
+      | some ob =>
+        if ¬ (ob < w.c.n) ∨ (w.c.objs ob).freed then crashR w "object_present2"
+        else
+          (exec sc f (.hook ob .id none) w).andThen fun w1 _ =>
+            if (w1.c.objs ob).destructed then { w := w1, val := none }
+            -- fix: C08-F3 - id() moved ob out of the searched inventory
+            else if (w1.c.objs ob).super ≠ some env then { w := w1, val := none }
+            else if ob = tgt then { w := w1, val := some ob }
+            else exec sc f (.present env tgt (nextInv w1.c ob)) w1
     | .command a verb =>
       -- command_for_object / process_command / user_parser (the action functions of the harness return 1)
       if ¬ (a < w.c.n) ∨ (w.c.objs a).freed then crashR w "command: not an object"
